@@ -61,6 +61,7 @@ type c40Cfg struct {
 	Dropped []string       `json:"dropped"`
 	Refs    map[string]int `json:"refs"`
 	Wal     []c40Smp       `json:"wal"`
+	Timer   string         `json:"timer"` // "first": every shard goroutine runs into its BatchSendDeadline timer right after start
 }
 
 type c40Beh struct {
@@ -171,14 +172,14 @@ func c40Handler(site string, kv ...int64) {
 		if g != nil {
 			g.park(site)
 		}
-	case "qm.shard.dequeued", "qm.shard.exit", "qm.shard.timer":
+	case "qm.shard.dequeued", "qm.shard.exit", "qm.shard.timer_fired":
 		r.mu.Lock()
 		g := r.shards[int(kv[1])]
 		r.mu.Unlock()
 		if g == nil {
 			return
 		}
-		if site == "qm.shard.dequeued" {
+		if site == "qm.shard.dequeued" || site == "qm.shard.timer_fired" {
 			g.park(site)
 		} else {
 			g.note(site)
@@ -308,6 +309,15 @@ func (r *c40Run) replay(t *testing.T) {
 		k := int64(x[1].(float64))
 		samples = append(samples, record.RefSample{Ref: chunks.HeadSeriesRef(b.Cfg.Refs[x[0].(string)]), T: base + k, V: float64(k)})
 	}
+	// Timer = "first": the deadline is short while a generation of shards starts (every goroutine runs into its timer
+	// and is parked before queue.Batch()) and long afterwards, so that each goroutine's timer fires exactly once, when
+	// the schedule says so. (cfg is read by the shard goroutines when they arm their timers.)
+	timerFirst := b.Cfg.Timer == "first"
+	setDeadline := func(d time.Duration) { r.qm.cfg.BatchSendDeadline = model.Duration(d) }
+	fired, gen := 0, b.Cfg.Init
+	if timerFirst {
+		setDeadline(25 * time.Millisecond)
+	}
 	r.newShardGates(b.Cfg.Init)
 	r.qm.shards.start(b.Cfg.Init)
 	go func() { r.appRet <- r.qm.Append(samples) }()
@@ -365,6 +375,21 @@ func (r *c40Run) replay(t *testing.T) {
 				break
 			}
 			r.answer(sto, st.Res)
+		case "TimerFire":
+			g := r.shards[st.Q]
+			s, ok := g.wait(c40Wait)
+			if !ok || s != "qm.shard.timer_fired" {
+				r.fail("drift", "", fmt.Sprintf("%s: shard did not run into its timer (%q)", where, s))
+				follow = false
+				break
+			}
+			g.parked = true
+			if fired++; fired == gen {
+				setDeadline(time.Hour)
+			}
+		case "TimerTake":
+			// the goroutine calls queue.Batch() now and sends what it got (the Send steps follow)
+			r.shards[st.Q].release()
 		case "ShardExit":
 			g := r.shards[st.Q]
 			s, ok := g.wait(c40Wait)
@@ -430,6 +455,10 @@ func (r *c40Run) replay(t *testing.T) {
 				follow = false
 			}
 		case "Start":
+			if timerFirst {
+				setDeadline(25 * time.Millisecond)
+				fired, gen = 0, st.N
+			}
 			r.newShardGates(st.N)
 			r.qm.shards.start(st.N)
 			stopped = false
@@ -443,6 +472,7 @@ func (r *c40Run) replay(t *testing.T) {
 	}
 
 	// completion: open every gate, accept every send, consume the rest of the WAL, stop the manager
+	setDeadline(time.Hour)
 	r.watcher.free()
 	r.mu.Lock()
 	for _, g := range r.shards {
